@@ -74,6 +74,37 @@ def mk_ell(spec):
     return EllipsoidalConfidenceRegion(len(spec["c"]), np.array(spec["c"], float), np.array(spec["S"], float), spec["a"])
 
 
+def region_pair(case, kind, warm):
+    """Region objects for case r1 / r2 and the specs the oracle should use.  Without case['first']: fresh objects.
+    With it: objects built for another pair, used once in a comparison (warm), then moved to r1 / r2 through their
+    public update() - what a design space does every round.  The specs are read back from the objects."""
+    mk = mk_rect if kind == "rect" else mk_ell
+    if not case.get("first"):
+        return mk(case["r1"]), mk(case["r2"]), case["r1"], case["r2"]
+    R1, R2 = mk(case["first"]["r1"]), mk(case["first"]["r2"])
+    warm(R1, R2)
+    out = []
+    for R, sp in ((R1, case["r1"]), (R2, case["r2"])):
+        if kind == "ell":
+            R.update(np.array(sp["c"], float), np.array(sp["S"], float), sp["a"])
+            out.append({"c": np.asarray(R.center, float).tolist(), "S": np.asarray(R.sigma, float).tolist(), "a": float(R.alpha)})
+        else:
+            lo, hi = np.array(sp["lo"], float), np.array(sp["hi"], float)
+            R.update((lo + hi) / 2, np.diag(((hi - lo) / 2) ** 2), np.array(1.0))
+            out.append({"lo": np.asarray(R.lower, float).tolist(), "hi": np.asarray(R.upper, float).tolist()})
+    return R1, R2, out[0], out[1]
+
+
+@st.composite
+def st_first_pair(draw, kind, m, scale, small=False):
+    """The pair the objects are built for before they are updated (same dimension, comparable size)."""
+    f = scale * draw(st.sampled_from([0.3, 1.0, 1.0, 3.0]))
+    if kind == "rect":
+        return {"r1": draw(st_rect(m, f)), "r2": draw(st_rect(m, f))}
+    kw = {"a_range": (10, 50), "always_rotated": True} if small else {}
+    return {"r1": draw(st_ell(m, f, **kw)), "r2": draw(st_ell(m, f, **kw))}
+
+
 def region_scale(*specs, slack=0.0):
     vals = [1e-300]
     for s in specs:
